@@ -425,3 +425,27 @@ N("C08", "locals renamed", MD, "", "", edits=[("decode_end", "shadow_end"), ("of
 N("C04", "roles renamed", MD, "", "", edits=[("decode_end", "shadow_end"), ("offset", "base"), ("stack", "ctxs")], replace_all=True)
 N("C06", "roles renamed", MD, "", "", edits=[("decode_end", "shadow_end"), ("offset", "base"), ("stack", "ctxs")], replace_all=True)
 N("C08", "initialisation order changed", MD, "        stack: list[Node] = []\n        decode_end = 0  # end of the last decoded context\n", "        decode_end = 0  # end of the last decoded context\n        stack: list[Node] = []\n")
+
+# ------------------------------------------------------------------ C02 (structural clauses)
+PS_INT = 'return int(stripped.decode(), 16 if stripped.lower().startswith(b"0x") else 10)'
+B("C02", "int(x, 0) rejects zero-padded decimals (seed s28)", PSF, PS_INT, "return int(stripped.decode(), 0)", "R1-conversion-total")
+B("C02", "hex prefix test is case-sensitive again", PSF, PS_INT, 'return int(stripped.decode(), 16 if stripped.startswith(b"0x") else 10)', "R1-conversion-total")
+B("C02", "byte-array elements always read as decimal", PSF, PS_INT, "return int(stripped.decode())", "R1-conversion-total")
+B("C02", "xml hex reference keeps its x", XMLF, "int(x[1:], base=16) if x.startswith", "int(x, base=16) if x.startswith", "R1-conversion-total")
+B("C02", "xml split keeps the empty tail", XMLF, '.split(b";")[:-1]', '.split(b";")', "R1-conversion-total")
+B("C02", "xml upper-case X read as decimal", XMLF, 'x.startswith((b"x", b"X"))', 'x.startswith(b"x")', "R1-conversion-total")
+B("C02", "xor key pattern admits hex digits", XH, 'XOR_RE = rb"(?i)-b?xor\\s*(\\d{1,3})"', 'XOR_RE = rb"(?i)-b?xor\\s*([0-9a-f]{1,3})"', "R1-conversion-total")
+B("C02", "chr argument may be signed", CHRF, 'CHR_RE = rb"(?i)chr[bw]?\\((0*\\d{1,5})\\)"', 'CHR_RE = rb"(?i)chr[bw]?\\(([+-]*\\d{1,5})\\)"', "R1-conversion-total")
+B("C02", "FromHexString argument may have odd length", HEXF, "unhexlify(match.group(2))", "unhexlify(match.group(2)[1:])", "R")
+B("C02", "decoded hit re-scanned two levels down", MD, "self.scan_node(hit, depth_limit - 1)", "self.scan_node(hit, depth_limit - 2)", "R2-peel-next-layer")
+B("C02", "decoded arm re-scans the context, not the hit", MD, "self.scan_node(hit, depth_limit - 1)", "self.scan_node(node, depth_limit - 1)", "R2-peel-next-layer")
+B("C02", "decoded hits are not re-scanned", MD, "                self.scan_node(hit, depth_limit - 1)\n", "                pass\n", "R2-peel-next-layer")
+B("C02", "atob node covers only the argument", B64, 'out.append(Node("javascript.string", b64, "encoding.base64", *match.span()))', 'out.append(Node("javascript.string", b64, "encoding.base64", *match.span(1)))', "R3-whole-expression")
+B("C02", "bare hex node is anonymous", HEXF, 'Node("", unhexlify(match.group(0)), "decoded.hexadecimal", *match.span(0))', 'Node("", unhexlify(match.group(0)), "", *match.span(0))', "R4-layer-named")
+B("C02", "reverse keeps the quotes (via C15)", REV, "[-2:0:-1]", "[::-1]", "R5-via-C15")
+B("C02", "caret literal inside quotes dropped (via C16)", SH, 'elif character == ord("^") and not in_string:', 'elif character == ord("^"):', "R5-via-C16")
+N("C02", "prefix test on a slice", PSF, PS_INT, 'return int(stripped.decode(), 16 if stripped[:2].lower() == b"0x" else 10)')
+N("C02", "prefix test with both spellings", PSF, PS_INT, 'return int(stripped.decode(), 16 if stripped.startswith((b"0x", b"0X")) else 10)')
+N("C02", "strip after decode", PSF, "        stripped = byte.strip()\n        " + PS_INT, '        stripped = byte.strip()\n        return int(byte.decode().strip(), 16 if stripped.lower().startswith(b"0x") else 10)')
+N("C02", "xml decimal base spelled out", XMLF, "else int(x) for x in", "else int(x, 10) for x in")
+N("C02", "depth via a temporary", MD, "                self.scan_node(hit, depth_limit - 1)", "                remaining = depth_limit - 1\n                self.scan_node(hit, remaining)")
